@@ -11,7 +11,7 @@ import itertools
 
 import numpy as np
 
-from mc import drive, util, world
+from mc import drive, scriptrng, util, world
 
 ID = "C15"
 LEVEL = "model_checking"
@@ -54,42 +54,18 @@ def cases(tier, seed):
     return out
 
 
-class Script:
-    def __init__(self, seq):
-        self.seq, self.calls = seq, 0
-
-    def normal(self, *a, size=None, **kw):
-        if a or kw or size is None:
-            raise util.HarnessError("unexpected use of the random generator")
-        v = self.seq[self.calls] if self.calls < len(self.seq) else np.zeros(size)
-        self.calls += 1
-        if len(v) != size:
-            raise util.HarnessError("draw size mismatch")
-        return np.array(v, float)
-
-
 def displacements(h):
     eps = h * 2.0 ** -10
     return [0.0, eps, -eps, h / 2, -h / 2, 0.99 * h, -0.99 * h]
 
 
-def plan(hcell, vmode):
-    """Particles = start depth x displacement; returns Z0, diffusion part, w part (metres per step)."""
-    Z0, dd, dw = [], [], []
+def plan(hcell, vmode, d):
+    """One run = one displacement d for every particle (the generator hands out ONE value per step, so the result does not depend on
+    how the tracker draws); particles = start depths. Returns Z0, diffusion part, w part (metres per step)."""
     eps = hcell * 2.0 ** -10
-    for z0, d in itertools.product([0.0, hcell / 4, hcell / 2, hcell - eps, hcell], displacements(hcell)):
-        Z0.append(z0)
-        if vmode in ("diff", "diff+hdiff"):
-            dd.append(d), dw.append(0.0)
-        elif vmode == "w":
-            dd.append(0.0), dw.append(d)
-        elif vmode == "both":
-            dd.append(0.75 * d), dw.append(0.25 * d)
-        elif vmode == "both-opposed":  # w opposes the net displacement
-            dd.append(1.25 * d), dw.append(-0.25 * d)
-        else:
-            dd.append(0.0), dw.append(0.0)
-    return np.array(Z0), np.array(dd), np.array(dw)
+    Z0 = np.array([0.0, hcell / 4, hcell / 2, hcell - eps, hcell])
+    fd, fw = dict(diff=(1, 0), w=(0, 1), both=(0.75, 0.25), off=(0, 0))[vmode] if vmode in ("diff", "w", "both", "off") else ((1, 0) if vmode == "diff+hdiff" else (1.25, -0.25))
+    return Z0, np.full(len(Z0), fd * d), np.full(len(Z0), fw * d)
 
 
 def reflect(z, h):
@@ -101,6 +77,19 @@ def reflect(z, h):
 
 
 def run_plug(case):
+    h0, flow = case["h"], case["flow"]
+    hstart = 2 * h0 if dict(stay=3.2, east=4.3, west=5.2)[flow] >= 4.5 else h0
+    viols, nt, n = [], 0, 0
+    for d in displacements(hstart):
+        v, t, m = run_plug_one(case, d)
+        nt, n = nt + t, n + m
+        for x in v:
+            if not any(y["sig"] == x["sig"] for y in viols):
+                viols.append(x)
+    return util.result(evals=2 * n, nontrivial=nt, viol=viols, outcomes=[[case["vmode"], flow]], states=2 * n, transitions=2 * n, sample=dict(case, particles=n))
+
+
+def run_plug_one(case, d):
     from ladim.state import State
     from ladim.timekeeper import TimeKeeper
     from ladim.tracker import Tracker
@@ -112,7 +101,7 @@ def run_plug(case):
     mods["grid"] = g = plugin("agrid").Grid(modules=mods, imax=12, jmax=9, dx=100.0, h=h0, hmode="step")  # cells i>=5 are twice as deep
     x0, vx = dict(stay=(3.2, 0.05), east=(4.3, 0.45), west=(5.2, -0.45))[flow]
     hstart = 2 * h0 if x0 >= 4.5 else h0
-    Z0, dd, dw = plan(hstart, vmode)
+    Z0, dd, dw = plan(hstart, vmode, d)
     n = len(Z0)
     mods["forcing"] = fo = plugin("aforce").Forcing(mods, field="const", params=dict(a=vx / DT, b=0.0, L=100.0), w=list(dw / DT), record=False)
     Dz = 1.0 / (2 * DT)  # sqrt(2 Dz dt) = 1 m per unit normal deviate
@@ -122,18 +111,13 @@ def run_plug(case):
     if vmode in ("w", "both", "both-opposed"):
         kw["vertical_advection"] = True
     if vmode == "diff+hdiff":
-        kw["diffusion"] = 1e-9
+        kw["diffusion"] = 1e-12
     tr = Tracker(**kw)
     mods["tracker"] = tr
-    seq = []
-    for _ in range(2):
-        if vmode == "diff+hdiff":
-            seq += [np.zeros(n), np.zeros(n)]
-        seq.append(dd)
-    tr.rng = Script(seq)
+    tr.rng = rng = scriptrng.Constant([float(dd[0]), float(dd[0])])  # sqrt(2 Dz dt) = 1 m: the value IS the vertical random displacement
     st.append(X=np.full(n, x0), Y=np.full(n, 4.2), Z=Z0)
     if flow == "stay":
-        st["active"][::5] = False  # settled particles: not moved horizontally, but the water column still bounds their depth
+        st["active"][::2] = False  # settled particles: not moved horizontally, but the water column still bounds their depth
     viols, nt = [], 0
 
     def bad(sig, msg):
@@ -145,10 +129,14 @@ def run_plug(case):
     for step in range(2):
         mods["time"].update()
         fo.update()
+        if step:
+            rng.next_step()
         hcell = 2 * h0 if round(xs) >= 5 else h0
         zbefore = st.Z.copy()
         try:
             tr.update()
+        except util.HarnessError:
+            raise
         except Exception as e:
             bad("exception", f"step {step}: {e!r}")
             break
@@ -178,7 +166,7 @@ def run_plug(case):
                 bad("outside-water-column", f"step {step} particle {k}: Z={got} not in [0, {hcell}] (start {zbefore[k]}, displacement {dd[k] + dw[k]}, bottom of start cell {hcell})")
             elif abs(got - z) > 1e-9 * max(1.0, hcell):
                 bad("reflection-value", f"step {step} particle {k}: Z={got} expected {z} (start {zbefore[k]}, displacement {dd[k] + dw[k]}, h={hcell})")
-    return util.result(evals=2 * n, nontrivial=nt, viol=viols, outcomes=[[vmode, flow]], states=2 * n, transitions=2 * n, sample=dict(case, particles=n))
+    return viols, nt, n
 
 
 def run_reshuffle(case):
@@ -209,13 +197,14 @@ def run_reshuffle(case):
         kw["vertical_advection"] = True
     tr = Tracker(**kw)
     mods["tracker"] = tr
-    tr.rng = Script([dd, dd])
+    tr.rng = rng = scriptrng.Constant([float(dd[0]), float(dd[0])])
     # shallow-cell particles start near their bottom (they pass it), deep-cell particles at mid depth (nobody passes the deepest bottom)
     st.append(X=np.array(xs), Y=np.full(n, 4.2), Z=np.array([0.9 * h if h == h0 else 0.5 * h for h in hs]))
     viols = []
     for step in range(2):
         mods["time"].update()
         if step == 1:  # one particle dies, is removed, and another is released: same count, every slot now holds another cell
+            rng.next_step()
             st["alive"][0] = False
             st.compactify()
             st.append(X=3.2 if (xs[-1] > 4.5 or deep_first) else 6.2, Y=4.2, Z=(0.9 * h0 if (xs[-1] > 4.5 or deep_first) else 1.0 * h0))
@@ -223,6 +212,8 @@ def run_reshuffle(case):
         zb, xb = st.Z.copy(), st.X.copy()
         try:
             tr.update()
+        except util.HarnessError:
+            raise
         except Exception as e:
             return util.result(viol=[util.viol("exception", f"{case}: {e!r}", case)], nontrivial=1)
         for k in range(len(st)):
@@ -254,45 +245,55 @@ def run_roms(case):
     mods["state"] = st = State()
     mods["grid"] = Grid(f, subgrid=sg)
     P = [(x, y) for x in np.arange(lim[0] + 0.6, lim[1] - 1.5, 0.7) for y in np.arange(lim[2] + 0.6, lim[3] - 1.5, 0.7)]
-    X, Y, Z0, dd, dw = [], [], [], [], []
-    for x, y in P:
-        hc = h[int(round(y)), int(round(x))]
-        z0, a, b = plan(hc, case["vmode"])
-        X += [x] * len(z0)
-        Y += [y] * len(z0)
-        Z0 += z0.tolist()
-        dd += a.tolist()
-        dw += b.tolist()
-    n = len(X)
-    dd, dw = np.array(dd), np.array(dw)
-    mods["forcing"] = fo = plugin("aforce").Forcing(mods, field="still", w=list(dw / DT), record=False)
-    kw = dict(advection="EF", modules=mods)
-    if case["vmode"] in ("diff", "both"):
-        kw["vertdiff"] = 1.0 / (2 * DT)
-    if case["vmode"] in ("w", "both"):
-        kw["vertical_advection"] = True
-    tr = Tracker(**kw)
-    mods["tracker"] = tr
-    tr.rng = Script([dd])
-    st.append(X=np.array(X), Y=np.array(Y), Z=np.array(Z0))
-    mods["time"].update()
-    fo.update()
-    viols, nt = [], 0
-    try:
-        tr.update()
-    except Exception as e:
-        return util.result(viol=[util.viol("exception", f"{case}: {e!r}", case)], nontrivial=1)
-    for k in range(n):
-        hc = h[int(round(Y[k])), int(round(X[k]))]
-        z = Z0[k] + dd[k] + dw[k]
-        if z < 0 or z > hc:
-            nt += 1
-        z = reflect(z, hc)
-        got = float(st.Z[k])
-        if not (-1e-12 <= got <= hc * (1 + 1e-12)) or abs(got - z) > 1e-9 * hc:
-            if not viols:
-                viols.append(util.viol("roms:reflection", f"{case}: particle at ({X[k]:.2f},{Y[k]:.2f}) Z0={Z0[k]} displacement {dd[k] + dw[k]}: Z={got} expected {z} with bottom {hc}", case))
-    return util.result(evals=n, nontrivial=nt, viol=viols, outcomes=[["roms", case["vmode"]]], states=n, transitions=n, sample=dict(case, particles=n))
+    fd, fw = dict(diff=(1, 0), w=(0, 1), both=(0.75, 0.25))[case["vmode"]]
+    ds = [0.0] + [sg_ * q for hv in sorted(set(h.ravel().tolist())) for q in (hv * 2.0 ** -10, hv / 2, 0.99 * hv) for sg_ in (1, -1)]
+    viols, nt, ntot = [], 0, 0
+    for dval in ds:  # one displacement per run, the same for every particle (independent of the tracker's draw structure)
+        mods = {}
+        mods["time"] = TimeKeeper(start=world.iso(S0), stop=world.iso(S0 + 100 * DT), dt=DT)
+        mods["state"] = st = State()
+        mods["grid"] = Grid(f, subgrid=sg)
+        X, Y, Z0, HC = [], [], [], []
+        for x, y in P:
+            hc = float(h[int(round(y)), int(round(x))])
+            if abs(dval) >= hc:
+                continue  # outside the statement's condition
+            for z0 in (0.0, hc / 4, hc / 2, hc * (1 - 2.0 ** -10), hc):
+                X.append(x), Y.append(y), Z0.append(z0), HC.append(hc)
+        n = len(X)
+        if n == 0:
+            continue
+        ntot += n
+        dd, dw = fd * dval, fw * dval
+        mods["forcing"] = fo = plugin("aforce").Forcing(mods, field="still", w=[dw / DT] * n, record=False)
+        kw = dict(advection="EF", modules=mods)
+        if case["vmode"] in ("diff", "both"):
+            kw["vertdiff"] = 1.0 / (2 * DT)
+        if case["vmode"] in ("w", "both"):
+            kw["vertical_advection"] = True
+        tr = Tracker(**kw)
+        mods["tracker"] = tr
+        tr.rng = scriptrng.Constant([dd])
+        st.append(X=np.array(X), Y=np.array(Y), Z=np.array(Z0))
+        mods["time"].update()
+        fo.update()
+        try:
+            tr.update()
+        except util.HarnessError:
+            raise
+        except Exception as e:
+            return util.result(viol=[util.viol("exception", f"{case}: {e!r}", case)], nontrivial=1)
+        for k in range(n):
+            hc = HC[k]
+            z = Z0[k] + dd + dw
+            if z < 0 or z > hc:
+                nt += 1
+            z = reflect(z, hc)
+            got = float(st.Z[k])
+            if not (-1e-12 <= got <= hc * (1 + 1e-12)) or abs(got - z) > 1e-9 * hc:
+                if not viols:
+                    viols.append(util.viol("roms:reflection", f"{case}: particle at ({X[k]:.2f},{Y[k]:.2f}) Z0={Z0[k]} displacement {dd + dw}: Z={got} expected {z} with bottom {hc}", case))
+    return util.result(evals=ntot, nontrivial=nt, viol=viols, outcomes=[["roms", case["vmode"]]], states=ntot, transitions=ntot, sample=dict(case, particles=ntot))
 
 
 def warmup():
